@@ -1738,6 +1738,63 @@ func explorePathsX(fn *ssa.Function, start ssa.Instruction, target ssa.Instructi
 			if r := assume(v); r != U {
 				return r
 			}
+			// a counter of findings (`nulls := 0; … if v == nil { nulls++ } …; if nulls > 0`): positive once the
+			// path has passed an increment - the counter starts at a constant >= 0 and only ever grows
+			if isIntType(x.X.Type()) && isZeroConst(x.Y) {
+				structural := map[ssa.Value]bool{}
+				var lb func(v ssa.Value, seen map[ssa.Value]bool, d int) (int64, bool)
+				lb = func(v ssa.Value, seen map[ssa.Value]bool, d int) (int64, bool) {
+					if d > 12 {
+						return 0, false
+					}
+					switch y := v.(type) {
+					case *ssa.Const:
+						if y.Value != nil && y.Value.Kind() == constant.Int {
+							return y.Int64(), true
+						}
+					case *ssa.BinOp:
+						if y.Op == token.ADD {
+							if k, isK := y.Y.(*ssa.Const); isK && k.Value != nil && k.Value.Kind() == constant.Int && k.Int64() >= 0 {
+								if b, ok := lb(y.X, seen, d+1); ok {
+									return b + k.Int64(), true
+								}
+							}
+						}
+					case *ssa.Phi:
+						if e, has := ps.phi[y]; has && !seen[y] {
+							seen[y] = true
+							return lb(e, seen, d+1)
+						}
+						if structural[y] {
+							return 1 << 40, true // on a cycle: bounded by the other edges
+						}
+						// (the value the variable had before its last update is not kept by the path: from here on
+						// the bound is the one every way into the variable guarantees)
+						structural[y] = true
+						min, any := int64(1<<40), false
+						for _, e := range y.Edges {
+							b, ok := lb(e, seen, d+1)
+							if !ok {
+								return 0, false
+							}
+							if b < min {
+								min = b
+							}
+							any = true
+						}
+						return min, any
+					}
+					return 0, false
+				}
+				if b, ok := lb(x.X, map[ssa.Value]bool{}, 0); ok && b >= 1 && b < 1<<39 {
+					switch x.Op {
+					case token.GTR, token.NEQ, token.GEQ:
+						return T
+					case token.EQL, token.LEQ, token.LSS:
+						return F
+					}
+				}
+			}
 			// an outcome code the path has made definite: `switch code { case dropped: …` after code came in
 			// as one of the constants of the arms that set it
 			if x.Op == token.EQL || x.Op == token.NEQ {
